@@ -267,6 +267,9 @@ pub enum Op {
     Rebuild,
     ExtraPut { table: u8, key: Vec<u8>, val: Vec<u8> },
     ExtraDel { table: u8, key: Vec<u8> },
+    /// store a regular event sized so that the used part of the event map ends `slack` bytes (0, 8, 16, ...)
+    /// before the end of the backing file (slack 0 = the map is exactly full)
+    FillTo { slack: u8, author: u8 },
     /// fault injection: apply the inner operation while every LMDB reader slot is taken
     /// (as under many concurrent queries), so that lookups inside it fail with MDB_READERS_FULL
     Pressure(Box<Op>),
@@ -372,6 +375,8 @@ pub fn op_strategy(w: OpWeights, cfg: EvCfg) -> BoxedStrategy<Op> {
         ]
         .boxed(),
     ));
+    // boundary-directed sizes: fill the event map exactly, or leave one or two alignment units
+    v.push(((w.store + 5) / 6, (prop::sample::select(vec![0u8, 0, 8, 16, 24]), 0u8..cfg.authors).prop_map(|(slack, author)| Op::FillTo { slack, author }).boxed()));
     if w.pressure > 0 {
         let inner = prop_oneof![
             2 => gen_event(cfg).prop_map(Op::Store),
@@ -919,6 +924,29 @@ impl World {
             Op::ExtraPut { table, key, val } => Some(Concrete::Extra(*table, key.clone(), Some(val.clone()))),
             Op::ExtraDel { table, key } => Some(Concrete::Extra(*table, key.clone(), None)),
             Op::Pressure(inner) => self.concretise(inner).map(|c| Concrete::Pressure(Box::new(c))),
+            Op::FillTo { slack, author: a } => {
+                let end = self.st().stats().ok()?.event_bytes;
+                let file_len = self.map_len() as usize;
+                let start = (end + 7) & !7;
+                let slack = (*slack as usize / 8) * 8;
+                // event = 144 + tag section (4 + 2 + 2 + 2+1 + 2+4 = "t","fill") + 4 + content
+                let tags = vec![vec!["t".to_string(), "fill".to_string()]];
+                let fixed = 144 + crate::model::tags_size(&tags) + 4;
+                if file_len < start + fixed + slack {
+                    return None;
+                }
+                let content_len = file_len - start - fixed - slack;
+                let ge = GenEvent {
+                    author: *a,
+                    kind: 1,
+                    created_at: 150 + (self.events.len() as u64 % 7),
+                    tags,
+                    content_len: content_len as u32,
+                    idc: IdChoice::Hash,
+                };
+                let i = self.intern(ge.to_model(), Some(&ge));
+                Some(Concrete::Store(i))
+            }
         }
     }
 
